@@ -731,6 +731,47 @@ def check_names(ctx, R="C05.names"):
     ctx.floor(R, n, 250, "functions in the expression-lifting modules")
 
 
+def check_operands(ctx, R="C05.operands"):
+    ctx.rule(
+        R,
+        "operands of lifted operators are lifted: OperatorDistribution.__init__ applies toDistribution to every positional and keyword operand, or else "
+        "every construction site hands it operands that were converted (a list / tuple argument holding a random value, e.g. `dist.method([Range(0, 1), 2])` "
+        "or `dist(x, key=[...])`, is otherwise an ordinary Python object: not a dependency, never sampled)",
+    )
+    model = ctx.model
+    init = model.func(DI, "OperatorDistribution.__init__")
+    pa, pk = init.args.args[3].arg, init.args.args[4].arg
+    t = {lib.role_text(init, n.value) for n in walk_local(init) if isinstance(n, ast.Assign)}
+    lifts_pos = any(lib.role_text(None, f"{w}(toDistribution(a) for a in {pa})") in t for w in ("tuple", "list")) or lib.role_text(None, f"[toDistribution(a) for a in {pa}]") in t
+    lifts_kw = lib.role_text(None, f"{{n: toDistribution(a) for n, a in {pk}.items()}}") in t
+    if lifts_pos and lifts_kw:
+        ctx.ok(R, init, "OperatorDistribution.__init__ converts every positional and keyword operand")
+        return
+    m = model.module(DI)
+    n = 0
+    for q, fn in m.functions.items():
+        for c in walk_local(fn):
+            if not (isinstance(c, ast.Call) and dotted(c.func) == "OperatorDistribution" and len(c.args) >= 4):
+                continue
+            n += 1
+            for which, arg, lifted in (("positional", c.args[2], lifts_pos), ("keyword", c.args[3], lifts_kw)):
+                if lifted:
+                    continue
+                txt = lib.role_text(fn, arg)
+                empty = isinstance(arg, (ast.Dict, ast.Tuple)) and not (arg.keys if isinstance(arg, ast.Dict) else arg.elts)
+                if empty or "toDistribution(" in txt:
+                    ctx.ok(R, c, f"{q}: {which} operands `{norm_text(arg, 40)}` are converted at the construction site")
+                else:
+                    ctx.finding(
+                        R,
+                        c,
+                        f"{q} passes unconverted {which} operands",
+                        f"OperatorDistribution.__init__ no longer applies toDistribution to its {which} operands and {q} constructs `{norm_text(c, 70)}` with `{norm_text(arg, 30)}` as they "
+                        f"came from the caller: a list / tuple argument holding a random value is not lifted, so it is no dependency of the result and reaches the operator unsampled",
+                    )
+    ctx.floor(R, n, 5, "construction sites of OperatorDistribution")
+
+
 def check_custom_supports(ctx, R="C05.support"):
     """custom support functions (not monotone): hypot"""
     model = ctx.model
@@ -812,5 +853,6 @@ def check(ctx):
     ctx.run(check_shortcuts)
     ctx.run(check_support)
     ctx.run(check_custom_supports)
+    ctx.run(check_operands)
     ctx.run(check_conditioned)
     ctx.run(check_names)
